@@ -6,6 +6,10 @@ use crate::interpreter::interpreter_trait::InterpreterTrait;
 
 pub fn run<S: InterpreterTrait>(interpreter: &mut S) -> Result<(), RuntimeError> {
     let i: i32 = interpreter.context()[0].try_cast()?;
+    if i < 0 || i > 255 {
+        // not the code of a character
+        return Err(RuntimeError::IllegalFunctionCall);
+    }
     let mut s: String = String::new();
     s.push((i as u8) as char);
     interpreter
